@@ -1,0 +1,13 @@
+//go:build verif
+
+package revocation
+
+import (
+	"github.com/gr33nbl00d/caddy-revocation-validator/crl"
+	"github.com/gr33nbl00d/caddy-revocation-validator/ocsp"
+)
+
+// VerifCheckers exposes the provisioned checkers to verification harnesses.
+func (c *CertRevocationValidator) VerifCheckers() (*crl.CRLRevocationChecker, *ocsp.OCSPRevocationChecker) {
+	return c.crlRevocationChecker, c.ocspRevocationChecker
+}
